@@ -384,6 +384,33 @@ func (c c17) Shrink(cs *Case) []*Case {
 		return nil
 	}
 	var out []*Case
+	mk := func(q c17Params) {
+		q.Twice = false
+		nc := *cs
+		nc.Params = mustJSON(q)
+		nc.Traces = nil
+		out = append(out, &nc)
+	}
+	if p.Sched.Kind != "canonical" {
+		// Simplest schedule first: always release the lowest process identity.
+		q := p
+		q.Sched = SchedSpec{Kind: "canonical"}
+		mk(q)
+	}
+	allOne := true
+	for _, cl := range p.Clients {
+		if cl.P != 1 {
+			allOne = false
+		}
+	}
+	if !allOne {
+		q := p
+		q.Clients = append([]c17Client{}, p.Clients...)
+		for i := range q.Clients {
+			q.Clients[i].P = 1
+		}
+		mk(q)
+	}
 	if len(p.Clients) > 2 {
 		for i := range p.Clients {
 			q := p
